@@ -222,6 +222,7 @@ fn meta_case(rng: &mut StdRng, id: String, n: usize, big: bool, out: &mut Vec<Va
             sort_parser(&parser, &s2);
 
             let names: Vec<String> = parser.var_container().names().read().unwrap().clone();
+            let dictvals: Vec<i64> = names.iter().map(|x| parser.dict_value(x).map(|v| v as i64).unwrap_or(-1)).collect();
             let mut calls = Vec::new();
             let mut adf = Adf::from_parser(&parser);
             let g = adf.grounded();
@@ -246,11 +247,12 @@ fn meta_case(rng: &mut StdRng, id: String, n: usize, big: bool, out: &mut Vec<Va
                 adf.two_val_nogood_channel(Heuristic::Simple, s);
                 calls.push(json!({"c": "twoval", "b": "native", "r": tvs(&r.try_iter().collect::<Vec<_>>())}));
             }
-            (names, calls)
+            (names, dictvals, calls)
         });
+        let sfacts: Vec<Value> = facts.iter().filter_map(|f| if let Fact::S(i) = f { Some(json!(cps(&labels[*i]))) } else { None }).collect();
         match res {
-            Outcome::Ok((names, calls)) => pres.push(json!({"st": "ok", "ren": labels.iter().map(|l| cps(l)).collect::<Vec<_>>(), "sort": sort,
-                "names": names.iter().map(|l| cps(l)).collect::<Vec<_>>(), "calls": calls, "text": text})),
+            Outcome::Ok((names, dictvals, calls)) => pres.push(json!({"st": "ok", "ren": labels.iter().map(|l| cps(l)).collect::<Vec<_>>(), "sort": sort,
+                "names": names.iter().map(|l| cps(l)).collect::<Vec<_>>(), "calls": calls, "text": text, "sfacts": sfacts, "dictvals": dictvals})),
             o => pres.push(json!({"st": o.status(), "msg": o.msg(), "ren": [], "sort": sort, "names": [], "calls": [], "text": text})),
         }
     }
